@@ -30,8 +30,8 @@ class Hist:
         for dno, doc in enumerate(docs):
             for j in range(rng.choice([0, 0, 1, 2])):
                 kind = rng.choice(['bytes', 'named', 'file'])
-                data = bytes([rng.randrange(256) for _ in range(rng.randint(1, 40))])
                 k += 1
+                data = bytes([rng.randrange(256) for _ in range(rng.randint(1, 40))]) if k % 4 else b''      # every fourth picture is empty
                 if kind == 'bytes':
                     nm = doc.addPictureFromString(data, 'image/png'); mt = 'image/png'
                 elif kind == 'named':
